@@ -576,51 +576,40 @@ class EncodeCatRows(Filter[Iterable[Union[Any,Dense,Sparse]], Iterable[Union[Any
                     if K: yield [k,K]
             return o
 
-        def catset(o,k):
-            #k is Tuple[key,list]
-            if len(k) == 2 and isinstance(k[1],list):
-                k,K = k
-                row = o[k]
-                row = list(row) if isinstance(row,tuple) else copy(row)
-                o[k] = row
-                catset(row,K)
-            #k is list of keys
-            else:
-                if get_string:
-                    for _k in k:
-                        o[_k] = str(o[_k])
+        def catset(o,keys):
+            #each entry of keys is either a key whose value is a Categorical
+            #or a [key,[keys]] pair describing the categoricals nested below key
+            for _k in keys:
+                if isinstance(_k,list):
+                    _k,K = _k
+                    row = o[_k]
+                    row = list(row) if isinstance(row,tuple) else copy(row)
+                    o[_k] = row
+                    catset(row,K)
+                elif get_string:
+                    o[_k] = str(o[_k])
                 elif flat_onehot:
-                    for _k in k:
-                        if isinstance(o,list):
-                            h = o.pop(_k).as_onehot
-                            n = len(o)
-                            j = len(h)
-                            z = _k-n
-                            o.extend(h)
-                            if z != 0:
-                                o[_k:_k+j],o[z:] = o[n:],o[_k:n]
-                        else:
-                            h = o.pop(_k).as_onehot
-                            for i,v in enumerate(h):
-                                if v != 0: o[f'{_k}_{i}'] = v
+                    if isinstance(o,list):
+                        h = o.pop(_k).as_onehot
+                        n = len(o)
+                        j = len(h)
+                        z = _k-n
+                        o.extend(h)
+                        if z != 0:
+                            o[_k:_k+j],o[z:] = o[n:],o[_k:n]
+                    else:
+                        h = o.pop(_k).as_onehot
+                        for i,v in enumerate(h):
+                            if v != 0: o[f'{_k}_{i}'] = v
                 else:
-                    for _k in k:
-                        o[_k] =  o[_k].as_onehot
+                    o[_k] =  o[_k].as_onehot
 
         catkeys = list(catkey(first))
 
         if not catkeys:
             yield from rows
         else:
-            #cat_cols is list of numbers or list of lists
-            #top-level keys are ints (dense rows) or strings (sparse rows); a list marks a nested [key,[keys]] entry
-            is_nums = not isinstance(catkeys[0],list)
             for row in rows:
                 row = list(row) if isinstance(row,tuple) else copy(row)
-
-                if is_nums:
-                    catset(row,catkeys)
-                else:
-                    for k in catkeys: catset(row,k)
-
+                catset(row,catkeys)
                 yield row
